@@ -481,17 +481,24 @@ func c08tcpCase(c *wk.Ctx, idx int, r *rand.Rand, k int) {
 		return
 	}
 	defer tr.Close()
+	peerDone := false
+	var ann []byte
 	select {
-	case ann := <-gotAnn:
-		if !bytes.Equal(ann, mtp.AnnounceIntermediate) {
-			c.Viol("C08", idx, "tcp/announcement", fmt.Sprintf("%x", ann), nil)
-		}
+	case ann = <-gotAnn:
 	case e := <-srvErr:
-		c.Viol("C08", idx, "tcp/no-announcement", fmt.Sprint(e), nil)
-		return
+		// the peer reports only after it has handed over the announcement, so a nil report means it is simply done already
+		if e != nil {
+			c.Viol("C08", idx, "tcp/no-announcement", fmt.Sprint(e), nil)
+			return
+		}
+		peerDone = true
+		ann = <-gotAnn
 	case <-time.After(20 * time.Second):
 		c.Log.Emit(coreInconclusive("tcp: announcement not seen within the watchdog"))
 		return
+	}
+	if !bytes.Equal(ann, mtp.AnnounceIntermediate) {
+		c.Viol("C08", idx, "tcp/announcement", fmt.Sprintf("%x", ann), nil)
 	}
 	for i, it := range items {
 		var err error
@@ -530,9 +537,11 @@ func c08tcpCase(c *wk.Ctx, idx int, r *rand.Rand, k int) {
 		}
 		c.Distinct("tcpmsg", len(it.body), kind, len(segs))
 	}
-	if e := <-srvErr; e != nil {
-		c.Log.Emit(coreInconclusive("tcp peer: " + e.Error()))
-		return
+	if !peerDone {
+		if e := <-srvErr; e != nil {
+			c.Log.Emit(coreInconclusive("tcp peer: " + e.Error()))
+			return
+		}
 	}
 	// orderly close → end of stream
 	var err2 error
